@@ -21,6 +21,7 @@ from typing import Any
 from . import env, findings
 from .core import Ctx, Violation, h8
 from .draw import Draw
+from .ref import rx
 
 TIERS = ("quick", "thorough")
 
@@ -49,6 +50,7 @@ class CaseResult:
 
 def run_case(mod: Any, case: dict, ctx: Ctx) -> CaseResult:
     res = CaseResult()
+    rx.maybe_reset()
     ctx.evaluations += 1
     ctx.begin_case()
     try:
@@ -101,9 +103,7 @@ def _shard_worker(pid: str, tier: str, shard: int, seed_base: int) -> dict:
         now = time.monotonic()
         if state["fail_t"] is not None and now - state["fail_t"] > shrink_budget:
             return  # shrinking budget exhausted: let Hypothesis wind down
-        if state["fail_t"] is None and now - t0 > wall:
-            state["skipped"] += 1
-            return  # wall budget hit: inconclusive, not a violation
+        over_wall = state["fail_t"] is None and now - t0 > wall
         try:
             case = mod.generate(Draw(data), tier)
         except Exception as e:  # noqa: BLE001
@@ -111,6 +111,9 @@ def _shard_worker(pid: str, tier: str, shard: int, seed_base: int) -> dict:
                 raise  # StopTest / Frozen etc. belong to the engine
             state["harness"] = "generator raised:\n" + traceback.format_exc()[-1500:]
             return
+        if over_wall:
+            state["skipped"] += 1
+            return  # wall budget hit: still draws (keeps generation consistent) but is not evaluated: inconclusive
         res = run_case(mod, case, ctx)
         if res.harness is not None:
             state["harness"] = res.harness + "\ncase: " + json.dumps(case, default=repr)[:2000]
@@ -275,6 +278,9 @@ def run_property(pid: str, tier: str) -> int:
         r1 = pool.map_async(shard_worker, jobs, chunksize=1) if jobs and b["examples"] > 0 else None
         r2 = pool.map_async(exhaustive_worker, xjobs, chunksize=1) if xjobs else None
         results = (r1.get() if r1 else []) + (r2.get() if r2 else [])
+    if os.environ.get("PMVERIF_DEBUG"):
+        for r in results:
+            print(f"  shard {r['shard']}: wall={r.get('wall', 0):.1f}s evals={r['ctx']['evaluations']} skipped={r.get('skipped')}", file=sys.stderr)
     for r in results:
         merge_ctx(total, r["ctx"])
         skipped += r.get("skipped", 0)
